@@ -17,9 +17,21 @@ def candles(n, seed=0, kind='random'):
             c = p
         elif kind == 'spikes':
             c = p * (1 + (0.05 if i % 17 == 3 else rng.uniform(-0.002, 0.002)))
+        elif kind == 'ties':
+            # coarse tick size and flat stretches: consecutive bars with exactly equal prices
+            c = p if i % 5 in (1, 2) else round(p * (1 + rng.uniform(-0.01, 0.01)))
         else:
             c = p * (1 + rng.uniform(-0.01, 0.01))
         o = p
+        if kind == 'ties':
+            h, l = max(o, c) + (i % 3 == 0), min(o, c) - (i % 4 == 0)
+            if i % 5 in (1, 2) and rows:
+                # a bar whose (H+L+C)/3 equals the previous bar's exactly
+                _, _, pc, ph, pl_, _ = rows[-1]
+                c, h, l = pc, ph, pl_
+            rows.append([TS0 + i * 60000, o, c, h, l, float(10 + i % 7)])
+            p = c
+            continue
         h = max(o, c) * (1 + rng.random() * 0.003)
         l = min(o, c) * (1 - rng.random() * 0.003)
         rows.append([TS0 + i * 60000, o, c, h, l, 10 + rng.random() * 100])
@@ -72,7 +84,10 @@ def prefix_check(name, ns=(64, 300), ks=(57, 61, 250, 123), seeds=(0, 1), kinds=
                     for (fn, fv), (_, pv) in zip(full, pre):
                         if fv is None or pv is None or np.ndim(fv) == 0:
                             continue
-                        fv, pv = np.asarray(fv, dtype=float), np.asarray(pv, dtype=float)
+                        try:
+                            fv, pv = np.asarray(fv, dtype=float), np.asarray(pv, dtype=float)
+                        except (TypeError, ValueError):
+                            continue        # non-numeric field (labels)
                         if len(pv) != k or len(fv) != n:
                             continue
                         for j in range(k):
@@ -80,3 +95,9 @@ def prefix_check(name, ns=(64, 300), ks=(57, 61, 250, 123), seeds=(0, 1), kinds=
                                 return (f'{name}(field {fn}): value at position {j} is {pv[j]} on the first {k} candles but {fv[j]} '
                                         f'on all {n} candles ({kind} series, seed {seed})')
     return None
+
+
+def long_prefix_check(name):
+    """bounded native stand-in of C13 beyond the symbolic bound: long inputs (float underflow / overflow in closed forms) and
+    series with exact ties"""
+    return prefix_check(name, ns=(400, 1600), ks=(61, 333, 1200), seeds=(2,), kinds=('random', 'ties'))
